@@ -19,7 +19,8 @@ import (
 
 func init() { subs["manifests"] = corrManifests }
 
-var knownKinds = []string{"Namespace", "ServiceAccount", "Secret", "ConfigMap", "Service", "Deployment", "Job", "Pod", "Ingress", "CustomResourceDefinition", "Role", "RoleBinding", "StatefulSet", "CronJob", "PriorityClass", "ValidatingWebhookConfiguration"}
+// all kinds of the documented order (a copy of Helm/Spec/Tables.lean, deliberately not read from /repo)
+var knownKinds = []string{"PriorityClass", "Namespace", "NetworkPolicy", "ResourceQuota", "LimitRange", "PodSecurityPolicy", "PodDisruptionBudget", "ServiceAccount", "Secret", "SecretList", "ConfigMap", "StorageClass", "PersistentVolume", "PersistentVolumeClaim", "CustomResourceDefinition", "ClusterRole", "ClusterRoleList", "ClusterRoleBinding", "ClusterRoleBindingList", "Role", "RoleList", "RoleBinding", "RoleBindingList", "Service", "DaemonSet", "Pod", "ReplicationController", "ReplicaSet", "Deployment", "HorizontalPodAutoscaler", "StatefulSet", "Job", "CronJob", "IngressClass", "Ingress", "APIService", "MutatingWebhookConfiguration", "ValidatingWebhookConfiguration"}
 var unknownKinds = []string{"Widget", "Alpha", "Zeta", "configmap", "Certificate", ""}
 var hookWords = []string{"pre-install", "post-install", "pre-delete", "post-delete", "pre-upgrade", "post-upgrade", "pre-rollback", "post-rollback", "test", "test-success", "Pre-Install", " post-upgrade ", "bogus", "crd-install", ""}
 var policyWords = []string{"hook-succeeded", "hook-failed", "before-hook-creation", "Hook-Succeeded", "weird"}
